@@ -86,19 +86,23 @@ def live_clock():
         "base_sec": st.one_of(st.just(0), st.integers(0, 86399)),
         "offset_min": st.one_of(st.just(0), st.just(0), st.integers(-14 * 60, 14 * 60)),
         "loops": loops,
-        "k": st.integers(0, 40),
+        "k": st.one_of(st.integers(0, 40), st.integers(0, 12)),
+        # phase is controlled relative to "now" or relative to the start of the time-shift window (now - depth)
+        "anchor": st.sampled_from(["now", "window-start"]),
         "phi": st.sampled_from(PHI),
         "phi_us": st.integers(0, 10**7),
     })
 
 
-def resolve_clock(c: dict, ref_duration_us: int, seg_us: int, tick_us: int = 4167):
+def resolve_clock(c: dict, ref_duration_us: int, seg_us: int, tick_us: int = 4167, depth_us: int = 0):
     """-> (T as aware datetime, value of the start option or None).
     elapsed = loops*ref + k*seg + phi ; for symbolic starts elapsed is applied after the symbolic origin
     where that is known without consulting the server (epoch/today/month/year)."""
     phi = {"zero": 0, "1us": 1, "1tick": tick_us, "half": seg_us // 2, "end-1us": seg_us - 1,
            "uniform": c["phi_us"] % max(1, seg_us)}[c["phi"]]
     elapsed_us = c["loops"] * ref_duration_us + c["k"] * seg_us + phi
+    if c.get("anchor") == "window-start":
+        elapsed_us += depth_us
     epoch = clock.REAL(1970, 1, 1, tzinfo=_dt.timezone.utc)
     day = epoch + _dt.timedelta(days=c["base_day"])
     kind = c["start"]
